@@ -15,6 +15,7 @@ import (
 	"github.com/theQRL/go-qrllib/misc"
 	"github.com/theQRL/go-qrllib/qrl"
 	"github.com/theQRL/go-qrllib/xmss"
+	"verifmc/chalcorpus"
 	"verifmc/drv"
 	"verifmc/refdil"
 	"verifmc/refxmss"
@@ -455,6 +456,51 @@ func main() {
 				}
 				c.Eval(2)
 				c.Nontrivial(2)
+				c.Outcome(o + "/" + o2)
+			}
+		}})
+	chal := chalcorpus.Load()
+	ck.Domains = append(ck.Domains, &drv.Domain{Name: "dilithium-challenge-corpus", Size: int64(len(chal))*3 + 1, Chunk: 8,
+		Desc: "Verify / Open on signatures whose challenge seed is one of the committed corpus seeds (the seeds, out of 2^30 enumerated, whose challenge sampler reads furthest into its XOF output: up to 40+ rejected positions) x z in {0, valid z, all-ones} with no hints: the sampler's refill / bounds logic never faults",
+		Run: func(c *drv.Ctx, lo, hi int64) {
+			initD(c.Seed)
+			for i := lo; i < hi; i++ {
+				c.At(i)
+				if i == int64(len(chal))*3 {
+					if len(chal) == 0 {
+						c.Cap("challenge corpus missing")
+					}
+					c.Outcome("sentinel")
+					continue
+				}
+				e, zk := chal[i/3], int(i%3)
+				var sig [CB]byte
+				copy(sig[:], dsm[:CB])
+				copy(sig[:32], e.Bytes)
+				switch zk {
+				case 0:
+					var zero refdil.Poly
+					z := refdil.PackZ(&zero)
+					for k := 0; k < refdil.L; k++ {
+						copy(sig[32+k*len(z):], z)
+					}
+				case 2:
+					for k := 32; k < CB-83; k++ {
+						sig[k] = 0xFF
+					}
+				}
+				for k := CB - 83; k < CB; k++ {
+					sig[k] = 0
+				}
+				pk := dpk
+				msg := []byte("challenge corpus")
+				what := func() string { return fmt.Sprintf("challenge seed %s (reads %d XOF bytes) z-kind %d", e.Seed, e.Read, zk) }
+				o := run(c, i, "dilithium.Verify", false, what, func() string { return fmt.Sprint(dilithium.Verify(msg, sig, &pk)) })
+				sm := append(append([]byte(nil), sig[:]...), msg...)
+				o2 := run(c, i, "dilithium.Open", false, what, func() string { return fmt.Sprint(dilithium.Open(sm, &pk) != nil) })
+				c.Eval(2)
+				c.Nontrivial(2)
+				c.Max("xof_bytes_read_by_challenge_sampler", int64(e.Read))
 				c.Outcome(o + "/" + o2)
 			}
 		}})
